@@ -196,4 +196,13 @@ pub fn run(ctx: &Ctx) {
         })
     }, oracle);
     ctx.replay_known("sat-programs", |c: &Case| e1::without_exclusions(|| oracle(c)));
+    // library-built circuits: Merkle-mode permutation rows (MMCS opening verification)
+    let n = ctx.tier.pick(600, 30_000);
+    ctx.explore(
+        "mmcs-circuits",
+        crate::checks::c08::RULE_PROVE,
+        n,
+        crate::checks::c08::prove_case_strategy,
+        crate::checks::c08::oracle_prove_honest,
+    );
 }
